@@ -138,6 +138,47 @@ def resize (env : Env) (v : Vec) (newLen : Nat) (value : Id) (o : List Outcome) 
       | .ret _ => .ok ⟨dropArg r.vec value, if env.bombs.contains value then .panic true else .ret (), o⟩
       | .panic d => .ok ⟨dropArg r.vec value, .panic d, o⟩
 
+/-- the copy loop of `generic_extend_from_within_clone` (`fixed_bump_vec.rs` l.1561-1606, sized `T`):
+    `dst.write((*src).clone()); src += 1; dst += 1; inc_len(1)`; no guard, every clone is counted at once -/
+def extendWithinLoop : (fuel : Nat) → Vec → (src : Nat) → List Outcome → M (Out Unit)
+  | 0, v, _, o => .ok ⟨v, .ret (), o⟩
+  | fuel + 1, v, src, o =>
+    match peek v src with                                   -- `(*src).clone()` reads the source element
+    | .error e => .error e
+    | .ok _ =>
+      match o with
+      | [] => .ok ⟨v, .panic false, []⟩
+      | .panic :: o => .ok ⟨v, .panic false, o⟩
+      | .ret id :: o =>
+        match write v v.len id with
+        | .error e => .error e
+        | .ok v => extendWithinLoop fuel (setLen v (v.len + 1)) (src + 1) o
+
+/-- `extend_from_within_clone(start..end)`: `slice::range` panics for a bad range, then `generic_reserve(count)` -/
+def extendFromWithinClone (env : Env) (v : Vec) (start end_ : Nat) (o : List Outcome) : M (Out Unit) :=
+  if start > end_ ∨ end_ > v.len then .ok ⟨v, .panic false, o⟩
+  else
+    match reserve env v (end_ - start) with
+    | none => .ok ⟨v, .panic false, o⟩
+    | some v => extendWithinLoop (end_ - start) v start o
+
+/-- `generic_reserve_exact(additional)` — `bump_vec.rs` l.1978-1984 / `generic_grow_exact` l.2715-2729: grows to
+    exactly `len + additional` (`MutBumpVec`: to what the chunk holds, observed) -/
+def reserveExact (env : Env) (v : Vec) (additional : Nat) : Option Vec :=
+  if additional > v.cap - v.len then
+    match env.kind with
+    | .box | .fixed => none
+    | .bump => some (growTo v (v.len + additional))
+    | .mut | .rev => if v.len + additional ≤ env.capIn then some (growTo v env.capIn) else none
+  else some v
+
+/-- `BumpVec::shrink_to_fit` (l.2793-2814): if `cap > len` the allocator is asked to shrink the block to
+    `len` slots; whether it does (`shrink_slice` returns `Some`) is the arena's decision (observed: `capIn`) -/
+def shrinkToFit (env : Env) (v : Vec) : Vec :=
+  if v.cap ≤ v.len then v
+  else if env.capIn = v.len then { v with slots := v.slots.take v.len }
+  else v
+
 /-- `generic_resize_with(new_len, f)` — `fixed_bump_vec.rs` l.1819-1831, `bump_vec.rs` l.2162-2174: grows
     through `extend_trusted(repeat_with(f).take(n))` (`bump_vec.rs` l.2862-2903): under
     `SetLenOnDropByPtr`, `ptr.add(local_len).write(f()); local_len += 1` for each element; a panicking
